@@ -170,14 +170,20 @@ fn child_entry(node: &SyntaxNode, out: &mut Vec<Value>) {
     out.push(json!({"k": kind_name(k), "t": node.text().as_str(), "nl": 0, "in": false}));
 }
 
-fn walk(node: &SyntaxNode, f: &mut Flat, in_math: bool) {
+fn walk(node: &SyntaxNode, f: &mut Flat, in_import: bool) {
     let k = node.kind();
+    let in_import = in_import || k == SyntaxKind::ModuleImport;
     if k == SyntaxKind::Raw {
         f.lv.push(json!({"k": "Raw", "t": "", "nl": 0, "nw": 0, "raw": raw_info(node)}));
         return;
     }
     if !is_inner(node) {
-        f.lv.push(leaf_entry(node));
+        let mut e = leaf_entry(node);
+        if is_comment(k) {
+            // whether the comment lies inside an import statement (C06 under reordering)
+            e["imp"] = json!(in_import);
+        }
+        f.lv.push(e);
         return;
     }
     if k == SyntaxKind::Markup {
@@ -206,9 +212,8 @@ fn walk(node: &SyntaxNode, f: &mut Flat, in_math: bool) {
             .collect();
         f.mt.push(json!({"k": kind_name(k), "c": cs}));
     }
-    let _ = in_math;
     for c in node.children() {
-        walk(c, f, in_math || math_like);
+        walk(c, f, in_import);
     }
 }
 
